@@ -159,8 +159,10 @@ def splitting_columns(repo):
             upd = st
     if upd is None:
         raise AnalysisError("anchor missing: `self.dState += ...` in %s.step" % SPLIT)
+    from .sym import inline_locals
+    value = _subst(upd.value, inline_locals(step))
     cols = {}
-    for n in ast.walk(upd.value):
+    for n in ast.walk(value):
         if isinstance(n, ast.BinOp) and isinstance(n.op, ast.Mult):
             for a, b in ((n.left, n.right), (n.right, n.left)):
                 if isinstance(a, ast.Subscript) and is_self_attr(a.value, "tableau_intermediate") and \
